@@ -1,31 +1,28 @@
 import DimodModel.Cqm
+import DimodModel.Feasibility
+import DimodModel.Wire
+open Wire
 
-def parseLabel? (s : String) : Option Label :=
-  if s.startsWith "i:" then (s.drop 2).toString.toInt?.map Label.int
-  else if s.startsWith "s:" then some (Label.str (s.drop 2).toString)
-  else none
-
-def parseRat? (s : String) : Option Rat :=
-  match s.splitOn "/" with
-  | [p] => p.toInt?.map (fun z => (z : Rat))
-  | [p, q] => match p.toInt?, q.toNat? with
-    | some z, some d => if d = 0 then none else some ((z : Rat) / (d : Rat))
-    | _, _ => none
-  | _ => none
-
-def showRat (r : Rat) : String := if r.den = 1 then s!"{r.num}" else s!"{r.num}/{r.den}"
-
-def showLabel : Label → String
-  | .int z => s!"i:{z}"
-  | .str s => s!"s:{s}"
-  | .tup _ => "t:?"
-
-def csv (s : String) : List String := if s = "-" then [] else s.splitOn ","
+/-! Line-protocol driver for the CQM model (property C05).  One operation per stdin line, answer
+    `<ok|err:CLASS> <state>` with
+    state = `vars # objective # constraints`,
+    vars  = csv of `label:VT:lb:ub`, expression = `[labels in private order|linear|u:v:bias lower triangle|offset]`,
+    constraint = `label SENSE rhs;weight|inf;quadratic?;is_discrete;is_onehot;expr`. -/
 
 def vt4? (s : String) : Option VT4 :=
   match s with
   | "BINARY" => some .binary | "SPIN" => some .spin | "INTEGER" => some .integer | "REAL" => some .real
   | _ => none
+
+def showVT : VT4 → String
+  | .binary => "BINARY" | .spin => "SPIN" | .integer => "INTEGER" | .real => "REAL"
+
+def sense? (s : String) : Option Sense :=
+  match s with
+  | "<=" => some .le | ">=" => some .ge | "==" => some .eq | _ => none
+
+def optRat? (s : String) : Option (Option Rat) :=
+  if s = "-" then some none else (parseRat? s).map some
 
 def parseModel? (a b c d : String) : Option Cqm.ModelIn := do
   let items ← (csv a).mapM fun t =>
@@ -42,61 +39,143 @@ def parseModel? (a b c d : String) : Option Cqm.ModelIn := do
   let off ← parseRat? d
   pure { vars, info, lin, quad, off }
 
-def showVT : VT4 → String
-  | .binary => "BINARY" | .spin => "SPIN" | .integer => "INTEGER" | .real => "REAL"
+def parseTerms? (s : String) : Option (List Cqm.Term) :=
+  (csv s).mapM fun t =>
+    match t.splitOn "@" with
+    | [vs, b] => do
+      let vs ← (if vs = "" then some [] else (vs.splitOn "&").mapM parseLabel?)
+      pure { vs, bias := (← parseRat? b) }
+    | _ => none
+
+def parsePairs? (s : String) : Option (List (Label × Rat)) :=
+  (csv s).mapM fun kv =>
+    match kv.splitOn "=" with
+    | [k, v] => do pure ((← parseLabel? k), (← parseRat? v))
+    | _ => none
+
+def parseMapping? (s : String) : Option (List (Label × Label)) :=
+  (csv s).mapM fun kv =>
+    match kv.splitOn "=" with
+    | [k, v] => do pure ((← parseLabel? k), (← parseLabel? v))
+    | _ => none
+
+def parseWhich? (s : String) : Option (Option Label) := parseOptLabel? s
 
 def showExpr (m : Cqm) (e : Expr) : String :=
   let vars := String.intercalate "," (e.vars.map fun g => showLabel (m.labels.getD g (.int (-1))))
   let lin := String.intercalate "," (e.qb.lin.map showRat)
-  let quad := (List.range e.qb.adj.length).flatMap fun u =>
-    ((e.qb.adj.getD u []).filter (fun p => p.1 ≤ u)).map fun p => s!"{u}:{p.1}:{showRat p.2}"
-  s!"[{vars}|{lin}|{String.intercalate "," quad}|{showRat e.qb.off}]"
+  let quad := e.qb.lower.map fun t => s!"{t.1}:{t.2.1}:{showRat t.2.2}"
+  -- `indices_` must be the inverse of `variables_` (checked here so that a broken map shows up)
+  let idxOk := e.idx.length = e.vars.length &&
+    (List.range e.vars.length).all fun i => e.idx.get? (e.vars.getD i 0) = some i
+  s!"[{vars}|{lin}|{String.intercalate "," quad}|{showRat e.qb.off}]" ++ (if idxOk then "" else "!idx")
+
+def showSense : Sense → String
+  | .le => "<=" | .ge => ">=" | .eq => "=="
 
 def showState (m : Cqm) : String :=
   let vars := String.intercalate "," ((List.range m.numVars).map fun i =>
     s!"{showLabel (m.labels.getD i (.int (-1)))}:{showVT (m.vt.getD i .binary)}:{showRat (m.lb.getD i 0)}:{showRat (m.ub.getD i 0)}")
   let cons := (m.cons.zip m.clabels).map fun (c, l) =>
-    let s := match c.sense with | .le => "<=" | .ge => ">=" | .eq => "=="
     let w := match c.weight with | none => "inf" | some w => showRat w
-    s!"{showLabel l}{s}{showRat c.rhs};{w};{c.quadPenalty};{m.isDiscrete c};{showExpr m c.e}"
+    s!"{showLabel l}{showSense c.sense}{showRat c.rhs};{w};{c.weight.isSome && c.quadPenalty};{c.isDiscrete m.vt};{c.isOnehot m.vt};{showExpr m c.e}"
   s!"{vars} # {showExpr m m.obj} # {String.intercalate " " cons}"
 
-def fin (m : Cqm) (r : Option Cqm) : Cqm × String :=
-  match r with
-  | some m' => (m', "ok " ++ showState m')
-  | none => (m, "err " ++ showState m)
+def showErr : ErrC → String
+  | .value => "value" | .type => "type" | .index => "index" | .runtime => "runtime"
 
-def step (m : Cqm) (line : String) : Cqm × String :=
-  let bad := (m, "bad-op")
+def fin (r : Cqm.Res) : Cqm × String :=
+  match r.2 with
+  | none => (r.1, "ok " ++ showState r.1)
+  | some c => (r.1, s!"err:{showErr c} " ++ showState r.1)
+
+def parseOp? (line : String) : Option Cqm.Op :=
   match line.trimAscii.toString.splitOn " " with
-  | ["new"] => fin m (some {})
-  | ["addvar", vt, l, lb, ub] => match vt4? vt, parseLabel? l, parseRat? lb, parseRat? ub with
-    | some vt, some l, some lb, some ub =>
-      let (m', ok) := m.addVariable vt l lb ub
-      if ok then fin m (some m') else fin m none
-    | _, _, _, _ => bad
-  | ["obj", a, b, c, d] => match parseModel? a b c d with
-    | some mi => fin m (m.setObjective mi) | none => bad
-  | ["con", lbl, sense, rhs, w, qp, a, b, c, d] =>
-    match parseLabel? lbl, parseRat? rhs, parseModel? a b c d with
-    | some lbl, some rhs, some mi =>
-      let sense := if sense = "<=" then Sense.le else if sense = ">=" then Sense.ge else Sense.eq
-      let w := if w = "inf" then none else parseRat? w
-      fin m (m.addConstraint mi sense rhs lbl w (qp = "1"))
-    | _, _, _ => bad
-  | ["rmvar", l] => match parseLabel? l with | some l => fin m (m.removeVariable l) | none => bad
-  | ["fix", l, a] => match parseLabel? l, parseRat? a with
-    | some l, some a => fin m (m.fixVariable l a) | _, _ => bad
-  | ["flip", l] => match parseLabel? l with | some l => fin m (m.flipVariable l) | none => bad
-  | ["cvt", vt, l] => match vt4? vt, parseLabel? l with
-    | some vt, some l => fin m (m.changeVartype vt l) | _, _ => bad
-  | ["rmcon", l] => match parseLabel? l with | some l => fin m (m.removeConstraint l) | none => bad
-  | _ => bad
+  | ["addvar", vt, l, lb, ub] => do pure (.addVariable (← vt4? vt) (← parseOptLabel? l) (← optRat? lb) (← optRat? ub))
+  | ["objm", a, b, c, d] => do pure (.setObjectiveModel (← parseModel? a b c d))
+  | ["objt", ts] => do pure (.setObjectiveTerms (← parseTerms? ts))
+  | ["conm", lbl, sense, rhs, copy, w, pen, a, b, c, d] => do
+    pure (.addConstraintModel (← parseModel? a b c d) (← sense? sense) (← parseRat? rhs) (← parseLabel? lbl) (copy = "1")
+      (← optRat? w) (← pen.toNat?))
+  | ["cont", lbl, sense, rhs, w, pen, ts] => do
+    pure (.addConstraintTerms (← parseTerms? ts) (← sense? sense) (← parseRat? rhs) (← parseLabel? lbl) (← optRat? w) (← pen.toNat?))
+  | ["discm", lbl, copy, chk, a, b, c, d] => do
+    pure (.addDiscreteModel (← parseModel? a b c d) (← parseLabel? lbl) (copy = "1") (chk = "1"))
+  | ["discc", lbl, sense, rhs, copy, chk, a, b, c, d] => do
+    pure (.addDiscreteComparison (← parseModel? a b c d) (← sense? sense) (← parseRat? rhs) (← parseLabel? lbl) (copy = "1") (chk = "1"))
+  | ["discv", lbl, chk, vs] => do pure (.addDiscreteVars (← (csv vs).mapM parseLabel?) (← parseLabel? lbl) (chk = "1"))
+  | ["rmvar", l] => do pure (.removeVariable (← parseLabel? l))
+  | ["fix", l, a] => do pure (.fixVariable (← parseLabel? l) (← parseRat? a))
+  | ["fixmany", ps] => do pure (.fixVariables (← parsePairs? ps))
+  | ["flip", l] => do pure (.flipVariable (← parseLabel? l))
+  | ["cvt", vt, l] => do pure (.changeVartype (← vt4? vt) (← parseLabel? l))
+  | ["s2b"] => some .spinToBinary
+  | ["rmcon", l, cas] => do pure (.removeConstraint (← parseLabel? l) (cas = "1"))
+  | ["relv", mp] => do pure (.relabelVariables (← parseMapping? mp))
+  | ["relc", mp] => do pure (.relabelConstraints (← parseMapping? mp))
+  | ["setlb", l, x] => do pure (.setLowerBound (← parseLabel? l) (← parseRat? x))
+  | ["setub", l, x] => do pure (.setUpperBound (← parseLabel? l) (← parseRat? x))
+  | ["vaddl", w, l, b] => do pure (.viewAddLinear (← parseWhich? w) (← parseLabel? l) (← parseRat? b))
+  | ["vsetl", w, l, b] => do pure (.viewSetLinear (← parseWhich? w) (← parseLabel? l) (← parseRat? b))
+  | ["vaddq", w, u, v, b] => do pure (.viewAddQuadratic (← parseWhich? w) (← parseLabel? u) (← parseLabel? v) (← parseRat? b))
+  | ["vrmi", w, u, v] => do pure (.viewRemoveInteraction (← parseWhich? w) (← parseLabel? u) (← parseLabel? v))
+  | ["vrmv", w, l] => do pure (.viewRemoveVariable (← parseWhich? w) (← parseLabel? l))
+  | ["voff", w, b] => do pure (.viewSetOffset (← parseWhich? w) (← parseRat? b))
+  | ["vmark", l, k] => do pure (.viewMarkDiscrete (← parseLabel? l) (k = "1"))
+  | ["vweight", l, w, pen] => do pure (.viewSetWeight (← parseLabel? l) (← optRat? w) (← pen.toNat?))
+  | ["deepcopy"] => some .deepcopy
+  | _ => none
+
+/-- every mutation goes through `Cqm.step` — the function the history theorems of `Properties/C05.lean` are about -/
+def step (m : Cqm) (line : String) : Cqm × String :=
+  match line.trimAscii.toString.splitOn " " with
+  | ["new"] => fin ({}, none)
+  | ["fixcopy", ps] => match parsePairs? ps with
+    | some ps => match m.fixVariablesCopy ps with
+      | some m' => (m, "ok " ++ showState m')
+      | none => (m, "err:value " ++ showState m)
+    | none => (m, "bad-op")
+  | _ => match parseOp? line with
+    | some op => fin (m.step op)
+    | none => (m, "bad-op")
+
+/-! ### C08: `feas atol rtol rows` evaluates every report path on the current model -/
+
+def parseRows? (s : String) : Option (List (List Rat)) :=
+  if s = "none" then some [] else
+  (s.splitOn ";").mapM fun row => (csv row).mapM parseRat?
+
+def bit (b : Bool) : String := if b then "1" else "0"
+
+def showFeas (m : Cqm) (atol rtol : Rat) (rowsL : List (List Rat)) : String :=
+  let rows : Nat → Nat → Rat := fun r g => (rowsL.getD r []).getD g 0
+  let n := rowsL.length
+  let cs := Feas.evalCons m rows
+  let obj := Feas.evalObj m rows
+  let perRow := (List.range n).map fun r =>
+    let data := (Feas.iterConstraintData cs r).map fun d =>
+      s!"{showRat d.lhsEnergy}:{showRat d.rhsEnergy}:{showSense d.sense}:{showRat d.activity}:{showRat d.violation}"
+    let vl (l : List (Label × Rat)) := String.intercalate "," (l.map fun p => s!"{showLabel p.1}={showRat p.2}")
+    s!"{String.intercalate "," data}|{vl (Feas.iterViolations false false cs r)}|{vl (Feas.iterViolations true false cs r)}|{vl (Feas.iterViolations false true cs r)}|{bit (Feas.checkFeasible atol rtol cs r)}"
+  let vec (g : Bool) :=
+    let res := Feas.fromSamplesCqm n atol rtol (fun _ _ => g) obj cs
+    let sat := (List.range n).map fun r => String.join (res.isSatisfied.map fun col => bit (col r))
+    let fe := String.join ((List.range n).map fun r => bit (res.isFeasible r))
+    let en := String.intercalate "," ((List.range n).map fun r => showRat (res.energies r))
+    s!"{String.intercalate "," sat}|{fe}|{en}"
+  s!"P {String.intercalate " ; " perRow} V {vec false} W {vec true}"
+
+def stepAll (m : Cqm) (line : String) : Cqm × String :=
+  match line.trimAscii.toString.splitOn " " with
+  | ["feas", atol, rtol, rows] => match parseRat? atol, parseRat? rtol, parseRows? rows with
+    | some atol, some rtol, some rows => (m, showFeas m atol rtol rows)
+    | _, _, _ => (m, "bad-op")
+  | _ => step m line
 
 partial def loop (h : IO.FS.Stream) (m : Cqm) : IO Unit := do
   let line ← h.getLine
   if line.isEmpty then return ()
-  let (m', out) := step m line
+  let (m', out) := stepAll m line
   IO.println out
   loop h m'
 
